@@ -595,3 +595,5 @@ def r8(ctx):
 
     for r in handoff_results(ctx, "C12-R8", c09.OPT_HANDOFF, VIOL, PASS, site, "whether a form body is folded into the query is decided by options the caller did not give"):
         yield r
+    for r in c09.preset_results(ctx, "C12-R8"):
+        yield r
